@@ -129,7 +129,9 @@ def load_known_findings(pid):
 # --------------------------------------------------------------------------
 def coq_audit_sources():
     bad = []
-    for dp, _, fns in os.walk(COQ):
+    for dp, dns, fns in os.walk(COQ):
+        # coq/scratch is not part of the development (git-ignored, never built by the checks)
+        dns[:] = [d for d in dns if d != "scratch"]
         for fn in fns:
             if not fn.endswith(".v"):
                 continue
@@ -216,8 +218,10 @@ def parse_print_assumptions(out):
                 res.append(cur)
             cur = []
         elif cur is not None:
-            m = re.match(r"^([A-Za-z_][\w.']*)\s*:", l)
-            if m:
+            # an axiom entry starts in column 0 with its qualified name; the " : type" part may
+            # be on the same line or wrapped onto the following (indented) lines
+            m = re.match(r"^([A-Za-z_][\w.']*)\s*(:|$)", l)
+            if m and not l.startswith(("COQC", "COQDEP", "make")):
                 cur.append(m.group(1))
     if cur is not None:
         res.append(cur)
